@@ -36,4 +36,9 @@ with open(os.path.join(VERIF, "seeded", "SUMMARY.md"), "w") as fh:
              "| property | seed | file(s) | change | demo clean/seeded | checks |\n|---|---|---|---|---|---|\n")
     for r in rows:
         fh.write("| " + " | ".join(x.replace("|", "/") for x in r) + " |\n")
-print(len(rows), "seeds;", sum("MISSED" in r[5] for r in rows), "missed")
+uncaught = [r for r in rows if "caught" not in r[5]]
+no_input = [r for r in rows if "caught" in r[5] and "concrete input" not in r[5]]
+print(len(rows), "seeds;", len(uncaught), "caught by no check;", len(no_input), "caught without a concrete input;",
+      sum("MISSED" in r[5] for r in rows), "with at least one listed check silent (another one caught them)")
+for r in uncaught + no_input:
+    print("  ", r[0], r[1], r[5])
